@@ -108,6 +108,8 @@ fn c02_cases(cx: &Ctx, p: &'static Params) -> Vec<VCase> {
             out.extend(forge::honest_cases(p, &skc, &hpk, *mode, msg, ctx, if primary { 2 } else { 0 }));
         }
     }
+    // D4b: commitment hashes with the longest SampleInBall rejection runs found by exhaustive search (committed witnesses)
+    out.extend(forge::sib_long_cases(p, &pk0, &pk0b).0);
     // D3b: a single hint bit placed on a coefficient of w'approx that sits on a Decompose / UseHint corner
     out.extend(forge::usehint_corner_cases(p, &pk0, &pk0b, cx.tier.pick(2048, 16384)));
     // D7b: butterfly-path response vectors (one NTT output slot pushed to its maximum), FIPS 204 accepts them
@@ -125,6 +127,13 @@ pub fn c02(cx: &Ctx, rep: &mut Report) {
     let mut transitions = 0usize;
     for api in APIS {
         let cases = c02_cases(cx, api.p);
+        {
+            let pk0b = Arc::new(refmodel::zero_t1_pk(api.p, &[0x42u8; 32]));
+            for e in forge::sib_long_cases(api.p, &PkCtx::new(api.p, &pk0b), &pk0b).1 {
+                rep.machinery(e);
+            }
+            rep.count("model_selected:long-SampleInBall", cases.iter().filter(|c| c.class.starts_with("D4b")).count() as u64);
+        }
         // automaton coverage of the hint-section classes that went through verify()
         let traces: Vec<Vec<e3::AState>> = cases.iter().filter(|c| c.class.starts_with("D3")).map(|c| e3::trace_alg21(api.p.k, api.p.omega, &c.sig[api.p.hint_off()..]).states).collect();
         states += e3::distinct_states(&traces);
